@@ -80,7 +80,7 @@ def metamorphic(ctx, n_cases):
                                    # a reference followed by brackets that open no label, and references next to raw inline HTML (other than <a>)
                                    "[%s][ rest", "[%s][unclosed *x*", "[%s][[x]] y", "<abbr>[%s]</abbr>", "<audio> [%s] z", "x <area> [%s]", "<b>[%s]</b> <aside>"]
                                   + (["note here[^n1]\n\n[^n1]: inside the note [%s] end", "| head |\n|------|\n| cell [%s] |", "term\n: definition [%s]", "- [ ] task [%s]", "~~del [%s]~~"] * 2 if plug else []))
-            uses.append(form % v)
+            uses.append((form % v).replace("n1", "n%d" % (len(uses) + 1)))      # (footnote keys distinct per use)
         body = []
         for u in uses:
             body += ["para " + u if not u.startswith((">", "-", "#", "|", "term", "note here")) else u, ""]
